@@ -305,6 +305,9 @@ pub enum Dev {
     Insert(usize, usize),
     /// append the splice
     Append(usize),
+    /// overwrite as many bytes from position on as the splice is long (the length stays the same:
+    /// a multi-byte character in the place of two digits keeps a fixed-length input on its fast path)
+    Overwrite(usize, usize),
 }
 fn apply_dev(seed: &[u8], d: &Dev, splices: &[Vec<u8>]) -> Vec<u8> {
     match d {
@@ -331,9 +334,16 @@ fn apply_dev(seed: &[u8], d: &Dev, splices: &[Vec<u8>]) -> Vec<u8> {
             b.extend_from_slice(&splices[*s]);
             b
         }
+        Dev::Overwrite(p, s) => {
+            let mut b = seed.to_vec();
+            let sp = &splices[*s];
+            let end = (*p + sp.len()).min(b.len());
+            b[*p..end].copy_from_slice(&sp[..end - *p]);
+            b
+        }
     }
 }
-fn devs_for(seed_len: usize, kind: Kind, nsplice: usize, tier: Tier) -> Vec<Dev> {
+fn devs_for(seed_len: usize, kind: Kind, nsplice: usize, tier: Tier, overwrites: &[usize]) -> Vec<Dev> {
     let mut v = vec![];
     let json_menu: &[u8] = b"\"{}[]:,09-e.\\ a\x00\xc3";
     for p in 0..seed_len {
@@ -355,6 +365,9 @@ fn devs_for(seed_len: usize, kind: Kind, nsplice: usize, tier: Tier) -> Vec<Dev>
                     }
                 }
             }
+        }
+        for &s in overwrites {
+            v.push(Dev::Overwrite(p, s));
         }
         // splices: long seeds get them at a stride (every position in thorough)
         let stride = if tier == Tier::Thorough || seed_len <= 120 { 1 } else { 3 };
@@ -432,7 +445,13 @@ impl Space {
                     Kind::Json => json_sp.len(),
                     Kind::Text => text_sp.len(),
                 };
-                let devs = devs_for(s.len(), d.kind, nsp, tier);
+                // length-preserving overwrites: the multi-byte and short structural splices (2..=4 bytes)
+                let ow: Vec<usize> = match d.kind {
+                    Kind::Json => json_sp.iter().enumerate().filter(|(_, x)| (2..=4).contains(&x.len())).map(|(i, _)| i).collect(),
+                    Kind::Text => text_sp.iter().enumerate().filter(|(_, x)| (2..=4).contains(&x.len())).map(|(i, _)| i).collect(),
+                    _ => vec![],
+                };
+                let devs = devs_for(s.len(), d.kind, nsp, tier, &ow);
                 let n = devs.len();
                 push(Group::Devs { dec: di, seed: si, devs: devs.clone() }, n, &mut total, &mut groups);
                 if tier == Tier::Thorough && s.len() <= 48 {
@@ -1206,7 +1225,7 @@ pub fn run(ctx: &Ctx) -> Result<Run, String> {
     let ndec = sp.decs.len();
     let mut run = Run::from_stats(
         "exploration",
-        "for each of 28 public decoders (CTAP2 CBOR messages, authenticator data, WebAuthn JSON, base64, U2F raw messages, COSE-key converter, fingerprints, asset links, RP-ID verification, public-suffix lookups): (1) all byte strings up to length 2 (3 thorough) / all strings over an 8-symbol alphabet up to length 5 (7 thorough); (2) every single deviation of valid seed encodings of every message type: truncation at every position, every byte value at every position (CBOR/binary; a 17-symbol menu for JSON/text), and splices at every position of CBOR heads of every major type with declared lengths 2^8..2^64-1 / indefinite, 300- and 100000-deep nesting, JSON structure/number/escape fragments, long and dotted labels (thorough: all pairs of byte-level deviations on short seeds); run in isolated worker processes with a counting allocator (single request > 4 MiB + 32 x input length, or > 256 MiB in total = out of proportion; > 1 GiB refused), 8 MiB stack, per-case watchdog; (2c) well-formed base64 / base64url text, padded or not, of every decoded length 0..4200 (thorough 20000) through Bytes::try_from, try_from_base64url and a JSON Bytes member (must decode to the bytes; no panic at any size boundary); (2g) an RP-ID verifier whose user-supplied suffix provider panicked once (unwind caught, or on a thread that died) answers five further RP IDs without panicking and as before; (2f) allow / exclude lists that are every sequence over three ids of length 0..5 (thorough 6), with mixed transports hints, through the JSON option parsers (text and owned value) and the CBOR request decoders; (2e) every name derived from a rule of the shipped list (as-is, wildcard instantiations, parent, sibling, 1..12 further labels in front) through the three lookups and the RP-ID verifier; (2d) key kinds: for the richest seed of every CBOR decoder and every map in it (top level and nested), and for authenticator data with ED resp. AT+ED, every ordered pair of added keys from 19 kinds (small/large/negative integers, text, bytes, floats incl. NaN, -0.0 and infinity, booleans, null, empty array, empty map, tag), in front and at the end - well-formed input, the decoder must return; (2b) COSE keys built as structs (0..2 entries per coordinate from a menu of lengths and types, three label orders, repeated labels included) given to the converter directly; (4) scaling families: 14 well-formed message shapes whose collection (PRF per-credential map, allow/exclude list, parameter list, unknown members, COSE parameters, JSON lists and maps, base64 text) grows to 256, 1024, 4096, 16384 (thorough: 65536) elements, with ids/keys that differ only at the front, only at the end or only in the middle, decoded in isolated workers: 4x the elements may not cost more than 9x the CPU time (judged once the larger run exceeds 10 ms, confirmed by a second measurement) nor an allocation out of proportion; (3b) CTAPHID with 1..300 (4096) channels transmitting at once; (3) CTAPHID: BFS over packet sequences on the real ChannelHandler (alphabet: 2 channels x 8 init heads + 4 continuation sequence numbers x 13 packet sizes), deduplicated on the hook snapshot. Non-trivial = distinct non-empty input",
+        "for each of 28 public decoders (CTAP2 CBOR messages, authenticator data, WebAuthn JSON, base64, U2F raw messages, COSE-key converter, fingerprints, asset links, RP-ID verification, public-suffix lookups): (1) all byte strings up to length 2 (3 thorough) / all strings over an 8-symbol alphabet up to length 5 (7 thorough); (2) every single deviation of valid seed encodings of every message type: truncation at every position, every byte value at every position (CBOR/binary; a 17-symbol menu for JSON/text), and splices at every position of CBOR heads of every major type with declared lengths 2^8..2^64-1 / indefinite, 300- and 100000-deep nesting, JSON structure/number/escape fragments, long and dotted labels, and length-preserving overwrites by the 2..4-byte fragments (a multi-byte character in the place of two digits) (thorough: all pairs of byte-level deviations on short seeds); run in isolated worker processes with a counting allocator (single request > 4 MiB + 32 x input length, or > 256 MiB in total = out of proportion; > 1 GiB refused), 8 MiB stack, per-case watchdog; (2c) well-formed base64 / base64url text, padded or not, of every decoded length 0..4200 (thorough 20000) through Bytes::try_from, try_from_base64url and a JSON Bytes member (must decode to the bytes; no panic at any size boundary); (2g) an RP-ID verifier whose user-supplied suffix provider panicked once (unwind caught, or on a thread that died) answers five further RP IDs without panicking and as before; (2f) allow / exclude lists that are every sequence over three ids of length 0..5 (thorough 6), with mixed transports hints, through the JSON option parsers (text and owned value) and the CBOR request decoders; (2e) every name derived from a rule of the shipped list (as-is, wildcard instantiations, parent, sibling, 1..12 further labels in front) through the three lookups and the RP-ID verifier; (2d) key kinds: for the richest seed of every CBOR decoder and every map in it (top level and nested), and for authenticator data with ED resp. AT+ED, every ordered pair of added keys from 19 kinds (small/large/negative integers, text, bytes, floats incl. NaN, -0.0 and infinity, booleans, null, empty array, empty map, tag), in front and at the end - well-formed input, the decoder must return; (2b) COSE keys built as structs (0..2 entries per coordinate from a menu of lengths and types, three label orders, repeated labels included) given to the converter directly; (4) scaling families: 14 well-formed message shapes whose collection (PRF per-credential map, allow/exclude list, parameter list, unknown members, COSE parameters, JSON lists and maps, base64 text) grows to 256, 1024, 4096, 16384 (thorough: 65536) elements, with ids/keys that differ only at the front, only at the end or only in the middle, decoded in isolated workers: 4x the elements may not cost more than 9x the CPU time (judged once the larger run exceeds 10 ms, confirmed by a second measurement) nor an allocation out of proportion; (3b) CTAPHID with 1..300 (4096) channels transmitting at once; (3) CTAPHID: BFS over packet sequences on the real ChannelHandler (alphabet: 2 channels x 8 init heads + 4 continuation sequence numbers x 13 packet sizes), deduplicated on the hook snapshot. Non-trivial = distinct non-empty input",
         true,
         stats,
     );
